@@ -145,6 +145,51 @@ def opNetrc (j : Json) : R Json := do
         ("for_path", encS (u.forPath "pool/x.deb".toList)),
         ("match", match matchMachine ms u with | some (l, p) => Json.arr #[encS l, encS p] | none => Json.null)]).toArray)]
 
+def decRelEntry (j : Json) : R RelEntry := do
+  return { hash := ← fStr j "hash", sizeRaw := ← fStr j "size", name := ← fStr j "name", parts := ← decPath (← field j "parts") }
+
+def decRelFile (j : Json) : R RelFile := do
+  let secs ← (← fArr j "sections").mapM fun s => do
+    let a ← s.getArr?
+    match a.toList with
+    | [al, es] => pure (← decAlgo (← al.getStr?), ← (← es.getArr?).toList.mapM decRelEntry)
+    | _ => throw "bad section"
+  return { dir := ← decPath (← field j "dir"), byHashYes := ← fBool j "by_hash_yes", sections := secs }
+
+def decPolicy (s : String) : R Cfg.ByHashOpt :=
+  match s with | "yes" => pure .yes | "no" => pure .no | "force" => pure .force | _ => throw "bad policy"
+
+def decSel (j : Json) : R SelCfg := do
+  if (← fBool j "flat") then
+    return .flat (← fBool j "source") (← fBool j "binaries")
+  else
+    let comps ← (← fArr j "components").mapM fun c => do
+      return ({ name := (← fStr c "name").toList, mirrorSource := ← fBool c "source",
+                arches := (← (← fArr c "arches").mapM (·.getStr?)).map String.toList } : Component)
+    return .std { components := comps }
+
+/-- {"codenames":[[relfile...]...]} -/
+def opValidate (j : Json) : R Json := do
+  let cns ← (← fArr j "codenames").mapM fun c => do (← c.getArr?).toList.mapM decRelFile
+  return Json.str (match validate cns with | .ok => "ok" | .inconsistent => "inconsistent" | .noReleaseFiles => "no-release-files")
+
+/-- {"files":[relfile], "policy":..., "sel":..., "ignored":[path]} -/
+def opMetadataFiles (j : Json) : R Json := do
+  let files ← (← fArr j "files").mapM decRelFile
+  let policy ← decPolicy (← fStr j "policy")
+  let sel ← decSel (← field j "sel")
+  let ign ← (← fArr j "ignored").mapM decPath
+  return Json.arr ((metadataFiles files policy sel ign).map encDFile).toArray
+
+def opAllowed (j : Json) : R Json := do
+  let sel ← decSel (← field j "sel")
+  let ps ← (← fArr j "paths").mapM (·.getStr?)
+  return Json.arr (ps.map fun p => Json.bool (sel.allowed p.toList)).toArray
+
+def opVariantPaths (j : Json) : R Json := do
+  let v ← decVariant (← field j "variant")
+  return Json.mkObj [("source", encPath v.sourcePath), ("all", Json.arr (v.allPaths.map encPath).toArray)]
+
 def dispatch (j : Json) : R Json := do
   let op ← fStr j "op"
   match op with
@@ -156,6 +201,10 @@ def dispatch (j : Json) : R Json := do
   | "lexsafe" => opLexSafe j
   | "config" => opConfig j
   | "netrc" => opNetrc j
+  | "validate" => opValidate j
+  | "metadata_files" => opMetadataFiles j
+  | "allowed" => opAllowed j
+  | "variant_paths" => opVariantPaths j
   | "findkey" => opFindKey j
   | "boolsize" => opBoolSize j
   | "plainname" => opPlainName j
